@@ -17,6 +17,7 @@ var c10Hosts = []struct{ name, text string }{
 	{"attrs", "// doc\n[opcode(\"abcd\")]\nreadonly struct R { [deprecated(\"x\")] float64 f; }\nimport \"i.bop\"\n"},
 	{"empty-bodies", "struct A {}\nmessage B {}\nenum E {}\nunion V { 1 -> message D {} 2 -> struct C {} }\n"},
 	{"no-final-newline", "enum E {}\nunion V { 1 -> message D {} 2 -> struct C {} }"},
+	{"string-escapes", "const string s = \"x\\ty\\\\z\\\"q\";\nstruct D {\n  [deprecated(\"a\\nb\")]\n  int32 f;\n}\n"},
 	{"multi-line-union", "union W {\n  /* c */\n  1 -> struct P {\n    int32 x;\n  }\n  // d\n  2 -> message Q {\n    1 -> P p;\n  }\n}\n"},
 }
 
